@@ -930,6 +930,31 @@ def R5_quotes(run):
                 # exact-in on A: output is B; exact-out of A: input is B
                 ok = flds == {"token_b" if sa else "token_a"}
             run.check("R5", "%s-side[specified_a=%d]" % (name, sa), ok, "SDK %s estimates the wrong token for specified_token_a=%s" % (name, sa), loc=g.loc(), detail="other side = token_%s" % ("b" if sa else "a"))
+    # which mint's transfer fee goes with which amount: the caller's own amount is in the specified token, the computed amount in
+    # the other one (for an exact-out quote the specified token is the *output*, so the roles of the two fees are not those of
+    # `a_to_b`)
+    for name in ("swap_quote_by_input_token", "swap_quote_by_output_token"):
+        g = K.need_fn(SW + name)
+        for sa in (True, False):
+            pvc = prov_of(g, {"specified_token_a": sa})
+            bad, seen = [], 0
+            for bi, t in g.calls():
+                last = (callee_path(t) or "").rsplit("::", 1)[-1]
+                if last not in ("try_apply_transfer_fee", "try_reverse_apply_transfer_fee") or g.blocks[bi]["c"] or pvc.flow.state_in[bi] is None:
+                    continue
+                amt = pvc.operand(t["a"][0], bi, len(g.blocks[bi]["s"]))
+                fee = pvc.operand(t["a"][1], bi, len(g.blocks[bi]["s"]))
+                fees = {x[1] for l in leaves(fee) for x in subterms(l) if x[0] == "param" and x[1] in ("transfer_fee_a", "transfer_fee_b")}
+                # the token an amount is in: a computed amount is swap_result.token_a / token_b; the caller's own amount is in the
+                # specified token
+                toks = {x[2][-1] for l in leaves(amt) for x in subterms(l) if x[0] == "field" and x[2] in ("token_a", "token_b") and mentions(x[1], lambda y: y[0] == "call" and y[1].endswith("compute_swap"))}
+                if not toks and mentions(amt, lambda x: x[0] == "param" and x[1] in ("token_in", "token_out")):
+                    toks = {"a" if sa else "b"}
+                seen += 1
+                if len(toks) != 1 or fees != {"transfer_fee_" + next(iter(toks))}:
+                    bad.append("%s on an amount of token %s takes %s" % (last, sorted(toks), sorted(fees)))
+            run.check("R5", "%s-transfer-fees[specified_a=%d]" % (name, sa), seen == 3 and not bad, "SDK %s (specified_token_a=%s): %s" % (name, sa, "; ".join(bad) or "%d transfer-fee applications, expected 3" % seen),
+                      loc=g.loc(), detail="each of the 3 fee applications uses the fee of the token its amount is in")
     g = K.need_fn("quote::liquidity::try_get_token_estimates_from_liquidity")
     run.touch(g)
     arms = _enum_arms(g, K, lambda t: is_call(t, "position_status"))
